@@ -88,6 +88,12 @@ def _from_radials(chk, prog, FR):
             role["I"] = l
     if set(role) == {"S", "I"}:
         return _append_to_last(chk, prog, fn, FR, lp, role, where)
+    for l in lp["tracked"]:
+        if fn.local_ty(l) == "u8" and "N" not in role:
+            role["N8"] = l
+    if set(role) == {"S", "R", "N8", "I"}:
+        return _seeded_first(chk, prog, fn, FR, lp, role, where)
+    role.pop("N8", None)
     if set(role) != {"S", "R", "N", "I"}:
         chk.blind("R-LIN", FR, "loop state is not (sweeps, pending run, label, iterator): tracked %s" % [(fn.local_name(l), fn.local_ty(l)) for l in lp["tracked"]], where)
         return
@@ -174,6 +180,87 @@ def _from_radials(chk, prog, FR):
             chk.ob("R-LIN", FR, len(em) == 1 and fld(em[0], CFG["label"]) == ("vfld", N, "Some", "0"), "the final sweep carries the pending label", where, key="exit:label")
 
 
+def _seeded_first(chk, prog, fn, FR, lp, role, where):
+    """the same induction for the form that takes the first radial before the loop: the label is a plain u8 seeded with
+    elevation(first), the pending run starts as [first] (so it is never empty), and the final flush is unconditional"""
+    S, R, N, I = (P("L%d" % role[k]) for k in ("S", "R", "N8", "I"))
+    e0 = lp["entry"]
+    arg = P(fn.local_name(1) or "arg1")
+    it = ("call", "<alloc::vec::Vec<T, A> as core::iter::traits::collect::IntoIterator>::into_iter", (arg,))
+    first_call = ("call", "core::iter::traits::iterator::Iterator::nth", (it, C(0, "usize")))
+    first = ("vfld", first_call, "Some", "0")
+    okk = listalg.seq(e0[role["S"]]) == [] and listalg.seq(e0[role["R"]]) == [("elem", first)] and e0[role["N8"]] == fld(first, CFG["elem_label"]) \
+        and e0[role["I"]] == ("advanced", it, 1)
+    chk.ob("R-LIN", FR, okk, "before the loop: no sweeps, pending run = [first radial of the input], label = elevation(first), iterator = the rest of the input", where, key="init")
+    chk.ob("R-LIN", FR, True, "the loop iterates the input vector itself, in order (after its first element)", where, key="source")
+    n_cases = 0
+    for conds, kind, val in lp["paths"]:
+        if kind == "exit:normal":
+            chk.ob("R-LIN", FR, len(conds) == 1 and conds[0][0][0] == "discr" and conds[0][0][1][0] == "call" and "Iterator>::next" in conds[0][0][1][1],
+                   "the loop ends exactly when the iterator is exhausted", where, key="exit-when-exhausted")
+            continue
+        if kind != "next":
+            chk.ob("R-LIN", FR, False, "the loop can be left in an unexpected way (%s)" % kind, where, key="exit:" + kind)
+            continue
+        call = conds[0][0][1] if conds and conds[0][0][0] == "discr" else None
+        okc = call is not None and call[0] == "call" and "Iterator>::next" in call[1] and call[2] == (I,)
+        chk.ob("R-LIN", FR, bool(okc), "each iteration takes its radial from one call of next() on the loop's iterator", where, key="one-next")
+        if not okc:
+            continue
+        r = ("vfld", call, "Some", "0")
+        er = fld(r, CFG["elem_label"])
+        base = [("flat", S)] + listalg.seq(R)
+        for c2, v in loops.split_cases(val):
+            n_cases += 1
+            tag = "case#%d" % n_cases
+            s2, r2 = listalg.seq(v[role["S"]]), listalg.seq(v[role["R"]])
+            content = None
+            if s2 is not None and r2 is not None:
+                fl = listalg.flatten(s2, sweep_inner)
+                content = fl + r2 if fl is not None else None
+            want = base + [("elem", r)]
+            chk.ob("R-LIN", FR, content == want, "content' = content ++ [r]" if content == want else
+                   "radials are not conserved on this path: content' = %s, expected %s" % (listalg.show(content), listalg.show(want)), where, key=tag + ":step")
+            chk.ob("R-LIN", FR, v[role["I"]][0] == "mutated" and v[role["I"]][3][0] == I and "Iterator>::next" in v[role["I"]][1],
+                   "the iterator is advanced exactly once", where, key=tag + ":advance")
+            chk.ob("R-LIN", FR, v[role["N8"]] == er, "label' = elevation(r)", where, key=tag + ":label")
+            eqs = (("bin", "Eq", er, N, "u8"), ("bin", "Eq", N, er, "u8"))
+            nes = (("bin", "Ne", er, N, "u8"), ("bin", "Ne", N, er, "u8"))
+            same = any(len(c) == 2 and ((c[1] is True and c[0] in eqs) or (c[1] is False and c[0] in nes)) for c in c2)
+            differ = any(len(c) == 2 and ((c[1] is True and c[0] in nes) or (c[1] is False and c[0] in eqs)) for c in c2)
+            if r2 == [("elem", r)]:
+                inv = True
+            elif r2 == listalg.seq(R) + [("elem", r)]:
+                inv = same
+            else:
+                inv = False
+            chk.ob("R-LIN", FR, inv, "pending' holds only radials of the new label's elevation" if inv else
+                   "the pending run is extended with a radial of a different elevation, or rebuilt wrongly: %s" % listalg.show(r2), where, key=tag + ":run-invariant")
+            if s2 is not None and s2 != [("atom", S)]:
+                em = [x for k, x in s2 if k == "elem"]
+                okk = len(em) == 1 and s2[0] == ("atom", S) and em[0][0] == "adt" and fld(em[0], CFG["label"]) == N and fld(em[0], CFG["radials"]) == R and differ
+                chk.ob("R-LIN", FR, okk, "a sweep is emitted only as (label, pending run) when the label differs from elevation(r)", where, key=tag + ":emit")
+            else:
+                # adjacent sweeps carry different numbers: a radial of another elevation must close the run
+                chk.ob("R-LIN", FR, not differ, "a radial of a different elevation closes the pending run", where, key=tag + ":emit")
+    chk.floor("iteration cases", n_cases, 2)
+    try:
+        ret = loops.exit_value(prog, fn, lp)
+    except sym.Undecided as e:
+        chk.blind("R-LIN", FR, "exit continuation undecided: %s" % e, where)
+        return
+    for c2, v in loops.split_cases({0: ret}):
+        res = listalg.seq(v[0])
+        fl = listalg.flatten(res, sweep_inner) if res is not None else None
+        want = [("flat", S)] + listalg.seq(R)
+        okk = fl == want
+        chk.ob("R-LIN", FR, okk, "at end of input the result's content is flatten(sweeps) ++ pending" if okk else
+               "at end of input the result's content is %s but must be %s: the pending run is lost" % (listalg.show(fl), listalg.show(want)), where, key="exit:pending-run")
+        if okk:
+            em = [x for k, x in res if k == "elem"]
+            chk.ob("R-LIN", FR, len(em) == 1 and fld(em[0], CFG["label"]) == N and fld(em[0], CFG["radials"]) == R, "the final sweep carries the pending label and run", where, key="exit:label")
+
+
 STABLE_SORTS = ("alloc::slice::<impl [T]>::sort_by_key", "alloc::slice::<impl [T]>::sort_by", "alloc::slice::<impl [T]>::sort_by_cached_key")
 
 
@@ -201,6 +288,9 @@ def pre_loop(chk, prog, fn, FR, lp):
 def _says_empty(k, arg):
     """condition k holds only when the input vector is empty: is_empty(arg) is true, or len(arg) is 0"""
     t = k[0]
+    if len(k) == 3 and t[0] == "discr" and t[1][0] == "call" and t[1][1].endswith("Iterator::nth") and t[1][2][1:] == (C(0, "usize"),) \
+            and t[1][2][0] == ("call", "<alloc::vec::Vec<T, A> as core::iter::traits::collect::IntoIterator>::into_iter", (arg,)):
+        return k[2] == ((0, 0),)          # the input's first next() is None
     def mentions(x):
         return x == arg or (isinstance(x, tuple) and any(mentions(y) for y in x))
     if not mentions(t):
